@@ -357,12 +357,13 @@ def ex_trend(c):
     def rec(t):
         seen.append(float(t))
         return f(t)
-    oc, o = guarded(lambda: proc.trend(xc, yc, rec, c["normalized"]))
+    dflt = (not c["normalized"]) and len(c["x"]) % 2 == 0      # documented default of `normalized` left implicit in half of the calls
+    oc, o = guarded(lambda: proc.trend(xc, yc, rec) if dflt else proc.trend(xc, yc, rec, c["normalized"]))
     # the Weaver is built on the caller's own arrays (as a user would): is the caller's data modified?
     cx, cy = np.array(x0, copy=True), np.array(y0, copy=True)
     bx, by = cx.tobytes(), cy.tobytes()
     w = Weaver(cx, cy)
-    woc, _ = guarded(lambda: w.trend(f, normalized=c["normalized"]))
+    woc, _ = guarded(lambda: w.trend(f) if dflt else w.trend(f, normalized=c["normalized"]))
     e = dict(c)
     e.update(outcome=oc, outx=vec(o[0]) if oc == "ok" else [], outy=vec(o[1]) if oc == "ok" else [], fargs=fxs(seen),
              w_outcome=woc, caller_modified=bool(cx.tobytes() != bx or cy.tobytes() != by))
@@ -381,7 +382,10 @@ def ex_linear_trend(c):
 def ex_normalize(c):
     a, other = arr(c["a"]), arr(c["other"])
     lo, hi = fl(c["lo"]), fl(c["hi"])
-    oc, o = guarded(lambda: proc.normalize(a, lo, hi))
+    if c["lo"] == [0, 1] and c["hi"] == [1, 1] and len(c["a"]) % 2 == 0:      # documented default range left implicit
+        oc, o = guarded(lambda: proc.normalize(a))
+    else:
+        oc, o = guarded(lambda: proc.normalize(a, lo, hi))
     if c["axis"] == "x":
         woc, w, _ = wrun(a, other, lambda w: w.normalize_x(lo, hi))
     else:
@@ -411,7 +415,7 @@ def ex_interp(c):
     x, y, q = xarr(c["x"], c.get("xcontainer", "array"), off), arr(c["y"]), xarr(c["q"], c.get("qcontainer", "array"), off)
     kw = {} if c["left"] == NONE else {"left": fl(c["left"])}
     coc, co = guarded(lambda: proc.interpolate(x, y, q, method="constant", **kw))
-    loc, lo = guarded(lambda: proc.interpolate(x, y, q, method="linear"))
+    loc, lo = guarded(lambda: proc.interpolate(x, y, q) if len(c["x"]) % 2 == 0 else proc.interpolate(x, y, q, method="linear"))
     boc, bo = guarded(lambda: proc.interpolate(x, y, q, method="quadratic"))
     if boc == "ok":
         boc = "returned:" + type(bo).__name__
@@ -479,6 +483,8 @@ def bits3(v):
 def rfa_kwargs(c):
     s = c["strategy"]
     kw = {}
+    if c.get("defaults"):           # every optional parameter left at its documented default (the case carries those values)
+        return kw
     if s in ("LinearFixed", "LinearAdaptive", "ExpFixed", "ExpAdaptive"):
         if c["a"] != -1:
             kw["a"] = c["a"]
@@ -660,6 +666,9 @@ import traffic_weaver.match as match_mod  # noqa: E402
 def match_call(c, x, y):
     kw = dict(fixed_points_finding_strategy=c["strategy"], target_function_integral_method=c["trule"],
               reference_function_integral_method=c["rrule"], alpha=c["alpha_f"] if "alpha_f" in c else fl(c["alpha"]))
+    if (c["strategy"], c["trule"], c["rrule"], c["alpha"]) == ("closest", "trapezoid", "rectangle", [1, 1]) and "alpha_f" not in c \
+            and len(c["x"]) % 2 == 0:
+        kw = {}                              # the documented defaults of all four left implicit
     off = xoff(c)
     if c["mode"] == "positions":
         kw["fixed_points_in_x"] = [fl(r) + off for r in c["given"]]
@@ -806,6 +815,8 @@ def wcall(w, op):
     if k == "recreate":
         c = dict(op)
         cls = getattr(rfa_mod, RFA_CLASSES[op["strategy"]])
+        if op.get("defaults") and op["strategy"] == "ExpAdaptive":       # documented default strategy and parameters
+            return w.recreate_from_average(op["n"])
         return w.recreate_from_average(op["n_f"] if "n_f" in op else op["n"], rfa_class=cls, **rfa_kwargs(c))
     if k == "integral_match":
         kw = {"target_function_integral_method": op["trule"], "reference_function_integral_method": op["rrule"]}
@@ -1036,9 +1047,13 @@ def ex_noise(c):
     kw = {}
     if c["mode"] == "std":
         kw = {"snr": None, "std": fl(c["std"])}
+        if c["std"] == [1, 1] and len(c["a"]) % 2 == 0:          # documented default std left implicit
+            del kw["std"]
     else:
         v = [fl(r) for r in c["snr"]]
         kw = {"snr": v[0] if len(v) == 1 else (v if c.get("snr_container") == "list" else np.array(v)), "snr_in_db": c["mode"] == "db"}
+        if c["mode"] == "db" and len(c["a"]) % 2 == 0:           # decibel is the documented default scale
+            del kw["snr_in_db"]
 
     def call():
         if c["via"] == "weaver":
